@@ -121,6 +121,13 @@ class Theory:
     def strc(self, s: str):
         return self.const('str:' + s)
 
+    def str_of_const(self, term):
+        """Inverse of strc for a constant term (None if the term is not a string literal constant)."""
+        for k, c in self.consts.items():
+            if k.startswith('str:') and c.eq(term):
+                return k[4:]
+        return None
+
     def clsc(self, name: str):
         """Val constant denoting a class object."""
         return self.const('cls:' + name)
